@@ -28,7 +28,9 @@ for d in sorted(os.listdir(S)):
                       "demo_exit_patched": conf.get("demo_exit_patched"), "baseline_stable_still_pass": conf.get("baseline_stable_still_pass")},
         "checks_run": {"how": "bin/seedmatrix.sh: checks run against a scratch worktree with the patch applied (VERIF_REPO), /repo untouched",
                        "ran": [r["check"] for r in det["results"]], "detected_by": [r["check"] for r in det["results"] if r["exit"] == 1],
+                       "undecided_in": [r["check"] for r in det["results"] if r["exit"] == 2],
                        "first_violation": {r["check"]: r["first"] for r in det["results"] if r["exit"] == 1}},
+        "round": 1 if int(d.split("-")[1]) <= 2 else 2,
         "rebased": os.path.exists(os.path.join(p, "patch.orig.diff")),
     }
     json.dump(meta, open(os.path.join(p, "meta.json"), "w"), indent=1)
